@@ -15,6 +15,7 @@ def showEv : Ev → String
 def showOut : Out → String
   | .cb e => showEv e
   | .linkFailed => "LINK-ERROR"
+  | .closeCalled => "CLOSE-CALLED"
   | .openReturned => "open-returned" | .openRaised => "open-raised" | .openAlreadyOpen => "open-already-open"
   | .closeReturned => "close-returned"
 
@@ -28,6 +29,8 @@ def parseOp? : List String → Option Op
   | ["close"] => some .close
   | ["sopen", "0"] => some (.syncOpen .missing) | ["sopen", "1"] => some (.syncOpen .ok) | ["sopen", "3"] => some (.syncOpen .failing)
   | ["sclose"] => some .syncClose
+  | ["dact", "a", "close"] => some (.deliverAct .allPkt .close) | ["dact", "a", "err"] => some (.deliverAct .allPkt .err)
+  | ["dact", "p", "close"] => some (.deliverAct .port .close) | ["dact", "p", "err"] => some (.deliverAct .port .err)
   | _ => none
 
 def parseBits? (s : String) : Option (List Bool) :=
